@@ -1,13 +1,14 @@
 (* Correspondence judge for C17: one case = one request sent to the real nsqadmin
-   (in-process, real listener or the real router with a synthetic RemoteAddr) in front
+   (in-process, real listener or the real router with a synthetic RemoteAddr; or the real
+   apps/nsqadmin binary started with command-line flags and / or a --config file) in front
    of recording stub nsqd / nsqlookupd upstreams.  No proofs here. *)
 From Coq Require Import String List NArith Bool.
-From NSQV Require Import model.Judge model.Names gen.AdminRoutes model.Admin.
+From NSQV Require Import model.Judge model.Names gen.AdminRoutes gen.AdminOptTable model.Admin model.AdminCfg.
 Import ListNotations.
 Open Scope list_scope.
 Open Scope N_scope.
 
-Record case := mk {
+Record rcase := mk {
   c_admins : list bytes;        (* --admin-user *)
   c_header : bytes;             (* --acl-http-header *)
   c_cidr : option cidr;         (* --allow-config-from-cidr, None = "" *)
@@ -73,7 +74,7 @@ Definition bytes_pause : bytes := [112;97;117;115;101].
 Definition bytes_unpause : bytes := [117;110;112;97;117;115;101].
 Definition bytes_empty : bytes := [101;109;112;116;121].
 
-Definition required_posts (c : case) : list ucall :=
+Definition required_posts (c : rcase) : list ucall :=
   let w := c_world c in
   let t := c_topic c in let ch := c_channel c in
   let on (addrs : list bytes) (uri : string) (tp chn nd : bytes) := map (fun ad => mkCall UPost ad uri tp chn nd) addrs in
@@ -101,23 +102,27 @@ Definition required_posts (c : case) : list ucall :=
     on (spec_producers w) (what ++ verb)%string t ch []
   else [].
 
-Definition stored_headers (c : case) : headers := if c_wire c then wire_headers (c_sent c) else c_sent c.
+Definition stored_headers (c : rcase) : headers := if c_wire c then wire_headers (c_sent c) else c_sent c.
 
 (* the identity the request carries: first value under the ACL header's canonical name *)
-Definition case_identity (c : case) : bytes := header_get (stored_headers c) (c_header c).
-Definition has_admin_identity (c : case) : bool :=
+Definition case_identity (c : rcase) : bytes := header_get (stored_headers c) (c_header c).
+Definition has_admin_identity (c : rcase) : bool :=
   match c_admins c with [] => true | l => existsb (bytes_eqb (case_identity c)) l end.
 
-Definition alive (c : case) (x : ucall) : bool := negb (existsb (bytes_eqb (uc_addr x)) (c_dead c)).
+Definition alive (c : rcase) (x : ucall) : bool := negb (existsb (bytes_eqb (uc_addr x)) (c_dead c)).
 
-Definition monitor (c : case) : bool :=
+Definition monitor_r (c : rcase) : bool :=
   let sc := spec_state_changing (c_method c) (c_path c) in
   let posts := filter is_post_call (r_calls c) in
+  (* the request was answered at all (status 0 = no nsqadmin there to answer) *)
+  negb (r_status c =? 0) &&
   (* without an admin identity: 403 and no upstream request at all; never a POST, on any route *)
   (if negb (has_admin_identity c) then
      (if sc then (r_status c =? 403) && match r_calls c with [] => true | _ => false end else true) &&
      match posts with [] => true | _ => false end
    else true) &&
+  (* with an admin identity, or with no admin list, the action is not refused for the identity *)
+  (if has_admin_identity c && sc then negb (r_status c =? 403) else true) &&
   (* read-only views stay available *)
   (if String.eqb (c_method c) "GET" && negb (is_config (c_path c)) then negb (r_status c =? 403) else true) &&
   (* /config only from the allowed CIDR *)
@@ -137,7 +142,7 @@ Definition monitor (c : case) : bool :=
    else true).
 
 (* ---- agreement with the model *)
-Definition agree (c : case) : bool :=
+Definition agree_r (c : rcase) : bool :=
   let cfg := mkCfg (c_admins c) (c_header c) (c_cidr c) in
   let rq := mkReq (c_method c) (stored_headers c) (c_remote c) (c_topic c) (c_channel c) (c_node c)
                   (c_body c) (c_opt c) (c_put c) in
@@ -152,6 +157,52 @@ Definition agree (c : case) : bool :=
            never a POST" holds of the implementation *)
         negb (r_status c =? 403) && negb (existsb is_post_call (r_calls c)) && negb (r_swapped c)
   | _ => (o_status o =? r_status c) && match r_calls c with [] => true | _ => false end
+  end.
+
+(* ---- requests to an nsqadmin started from a launch (flags and / or config file) *)
+
+Inductive case :=
+| CReq (r : rcase)
+  (* [r]'s c_admins / c_header / c_cidr are placeholders; its c_world lists EVERY stub with its
+     answer: the configuration is what the launch says *)
+| CLaunch (l : launch) (cp : cidr_table) (r : rcase).
+
+Definition pick {A : Type} (dflt : A) (univ : list (bytes * A)) (addrs : list bytes) : list (bytes * A) :=
+  map (fun a => (a, match assoc_bytes a univ with Some x => x | None => dflt end)) addrs.
+
+Definition with_cfg (r : rcase) (admins : list bytes) (header : bytes) (cd : option cidr)
+                    (lookupds nsqds : list bytes) : rcase :=
+  let w := c_world r in
+  mk admins header cd
+     (mkWorld (pick LFail (w_lookupds w) lookupds) (pick NFail (w_nsqds w) nsqds) (w_node w) (w_post_fail w))
+     (c_dead r) (c_method r) (c_path r) (c_wire r) (c_sent r) (c_remote r)
+     (c_topic r) (c_channel r) (c_node r) (c_body r) (c_opt r) (c_put r)
+     (r_status r) (r_warn r) (r_calls r) (r_swapped r).
+
+(* the property, for the configuration the operator wrote with the DOCUMENTED flags and keys
+   (AdminCfg.spec_config: command line over config file over default; it does not look at the
+   tables regenerated from the source).  A launch that is not a valid configuration (no
+   address list, both, unparsable CIDR) promises nothing *)
+Definition monitor (c : case) : bool :=
+  match c with
+  | CReq r => monitor_r r
+  | CLaunch l cp r =>
+      let s := spec_config l in
+      match startup cp s with
+      | Some cfg => monitor_r (with_cfg r (cf_admins cfg) (cf_header cfg) (cf_cidr cfg) (rc_lookupds s) (rc_nsqds s))
+      | None => true
+      end
+  end.
+
+(* the model: options.Resolve over the regenerated struct tags / flag set / defaults *)
+Definition agree (c : case) : bool :=
+  match c with
+  | CReq r => agree_r r
+  | CLaunch l cp r =>
+      match launch_cfg admin_tables cp l with
+      | Some (cfg, rc) => agree_r (with_cfg r (cf_admins cfg) (cf_header cfg) (cf_cidr cfg) (rc_lookupds rc) (rc_nsqds rc))
+      | None => (r_status r =? 0) && match r_calls r with [] => true | _ => false end
+      end
   end.
 
 Definition judge (c : case) : N := verdict (agree c) (monitor c).
